@@ -49,12 +49,12 @@ Record world := {
   w_glob : string -> nat -> Z;
   w_xmm : nat -> nat -> Z * Z;      (* what the n-th hook body (and the libc code it runs) leaves in xmm<i> *)
   w_ctx : nat -> Z -> Z;            (* garbage in the wrapper's context buffer before the save *)
-  w_avx : bool                      (* the machine has its ymm state enabled (mcount_arch_check_avx) *)
+  w_level : nat                     (* what mcount_arch_check_avx() finds: 0 xmm, 1 ymm state, >= 2 zmm state *)
 }.
 
 Definition c_call_xmm (W : world) (f : string) (n : nat) (x : nat -> Z * Z) : nat -> Z * Z :=
   if xmm_leaf f then x
-  else if xmm_wrapped f then arch_roundtrip128 (w_avx W) x (w_ctx W n) (w_xmm W n)
+  else if xmm_wrapped f then arch_roundtrip128 (Nat.min (w_level W) 2) x (w_ctx W n) (w_xmm W n)
   else w_xmm W n.
 
 Record cstate := {
